@@ -7,9 +7,10 @@ Tie        : correspondence -- the extracted model and the real library (harness
              /repo's working tree) run the same histories on ADF and on HDF5 files; every output line is compared.
 Oracle     : independent of the model: a Python list-of-elements reference (class Ref) with the documented
              semantics (splice with placeholder elements in gaps, slice, rebased offsets, parent data per element).
-Known defects of the unchanged code are exhibited by fixed probe histories (PROBES) and reported through
-ck.finding(key, ...); the random histories avoid exactly those triggers (and only while the probe still fails, for the
-parent-data defect, whose repaired variant the model carries as PFixed).
+Defects still present in /repo are exhibited by fixed probe histories (PROBES) and reported through
+ck.finding(key, ...); the random histories avoid exactly those triggers, and only while the probe still fails (the model
+carries both the current and the repaired variant of that code).  Repaired defects are regression histories in
+corpus/C10/*.hist: a failure there is a violation.
 """
 import hashlib, json, os
 import vlib
@@ -291,9 +292,9 @@ def oracle_check(ops, lines, outcome):
     return None
 
 
-def model_compare(ops, lines, outcome, variant):
+def model_compare(ops, lines, outcome, margs):
     """extracted model vs implementation, line by line; -> None or a detail dict"""
-    ml = vlib.run_model("c10", "\n".join(line_of(o) for o in ops) + "\n", args=[variant])
+    ml = vlib.run_model("c10", "\n".join(line_of(o) for o in ops) + "\n", args=margs)
     for i, m in enumerate(ml):
         if m == "FAULT":
             if i == len(lines) and (outcome.startswith("asan") or outcome.startswith("signal")):
@@ -324,10 +325,6 @@ def triggers(ops):
             mt = op[1] if k in ("egw", "pgw") else 8
             f, l = sec["first"], ref.last()
             extends = s < f or e > l
-            if extends and sec["par"] is not None:
-                out.add("parent-extend")
-            if mt == 4 and (extends or cached or k == "pgw"):
-                out.add("i4-inmemory")
             if extends or cached or k in ("ppw", "pgw"):
                 cached = True
         if sec is not None and k in ("epr", "ppr") and sec["dt"] == 4:
@@ -340,31 +337,17 @@ def triggers(ops):
     return out
 
 
-TRI = lambda b: [[b + 3 * i + j for j in range(3)] for i in range(4)]
-PAR4 = [[11, 21, 31, 41], [12, 22, 32, 42], [13, 23, 33, 43], [14, 24, 34, 44]]
 PROBES = [
-    # (finding key, name, ops)
-    ("parentdata-clobbered-on-extend", "append to a TRI_3 section with parent data",
-     [("secw", 5, 1, 4, TRI(1)), ("pdw", PAR4), ("reopen",), ("epw", 5, 6, [[13, 14, 15], [16, 17, 18]]), ("info",), ("er", 1),
-      ("reopen",), ("er", 1)]),
-    ("parentdata-clobbered-on-extend", "prepend to a TRI_3 section with parent data",
-     [("secw", 5, 3, 6, TRI(1)), ("pdw", PAR4), ("epw", 1, 2, [[13, 14, 15], [16, 17, 18]]), ("info",), ("er", 1), ("reopen",),
-      ("er", 1), ("epr", 3, 6, 1)]),
-    ("parentdata-clobbered-on-extend", "append to an NGON_n section with parent data",
-     [("psecw", 22, 1, 4, [[1, 2, 3], [4, 5, 6, 7], [8, 9, 10], [11, 12, 13]]), ("pdw", PAR4), ("reopen",),
-      ("ppw", 5, 5, [[14, 15, 16]]), ("info",), ("per", 1), ("reopen",), ("per", 1)]),
-    ("general-write-i4-inmemory-copy", "cg_elements_general_write(m_type=Integer) extending the section",
-     [("secw", 5, 3, 6, TRI(1)), ("egw", 4, 7, 8, [[31, 32, 33], [34, 35, 36]]), ("er", 0), ("reopen",), ("er", 0)]),
-    ("general-write-i4-inmemory-copy", "cg_poly_elements_general_write(m_type=Integer) after the stored range",
-     [("psecw", 22, 1, 2, [[1, 2, 3], [4, 5, 6, 7]]), ("pgw", 4, 3, 3, [[8, 9, 10]]), ("per", 0), ("reopen",), ("per", 0)]),
+    # (finding key, name, ops) -- defects still present in /repo; the repaired ones are regression histories in corpus/C10
     ("poly-read-fails-i4-cached", "cg_poly_elements_read on an I4-stored NGON_n section once connectivity is cached",
      [("secgw", 22, 4, 1, 3, 6), ("ppw", 2, 2, [[1, 2, 3]]), ("per", 0), ("reopen",), ("per", 0)]),
     ("poly-read-fails-i4-cached", "cg_poly_elements_read on an I4-stored MIXED section after an in-place shrink",
      [("secgw", 20, 4, 1, 2, 9), ("ppw", 1, 2, [[5, 1, 2, 3], [7, 4, 5, 6, 7]]), ("ppw", 2, 2, [[5, 8, 9, 10]]), ("per", 0),
       ("ppr", 1, 1, 0), ("per", 0)]),
+    ("poly-read-fails-i4-cached", "cg_poly_elements_read on an I4-stored NGON_n section with reserved space once cached",
+     [("secgw", 22, 4, 1, 2, 14), ("ppr", 1, 2, 0), ("per", 0), ("reopen",), ("per", 0)]),
 ]
-KEY_TRIGGER = {"parentdata-clobbered-on-extend": "parent-extend", "general-write-i4-inmemory-copy": "i4-inmemory",
-               "poly-read-fails-i4-cached": "per-i4-cached"}
+KEY_TRIGGER = {"poly-read-fails-i4-cached": "per-i4-cached"}
 
 
 # ------------------------------------------------------------------ generator
@@ -489,9 +472,6 @@ def gen_history(rng, avoid, big=False):
         if c < 0.62:
             s, e, pos = pick_range(rng, f, l, maxn)
             extends = s < f or e > l
-            if extends and ref.sec["par"] is not None and "parent-extend" in avoid:
-                s, e, pos = pick_range(rng, f, l, maxn, "inside")
-                extends = False
             if ref.n() + (e - s + 1) > (400 if big else 60):
                 s, e, pos = pick_range(rng, f, l, maxn, "inside")
                 extends = False
@@ -501,8 +481,6 @@ def gen_history(rng, avoid, big=False):
                 if all(o is not None for o in old) and t != MIXED:
                     new = [[rng.randint(1, 999) for _ in o] for o in old]
             mt = rng.choice([4, 8, 8])
-            if mt == 4 and (extends or cached[0] or poly) and "i4-inmemory" in avoid:
-                mt = 8
             general = rng.random() < 0.5
             if poly:
                 emit(("pgw", mt, s, e, new) if general else ("ppw", s, e, new))
@@ -593,9 +571,9 @@ def run(ck):
     if outcome != "ok" or lines != ml or lines[0].split()[1:] != [str(x) for x in NPE]:
         corr_broken.append({"what": "cg_npe table", "model": ml, "impl": lines})
 
-    # ---- probes of the known defects: does the defect still show on the implementation?
+    # ---- probes of the defects still open: does the defect still show on the implementation?
     avoid, probe_report = set(), []
-    variant = "fixed"
+    rvariant = "fixed"
     for key, name, ops in PROBES:
         for backend in ("adf", "hdf5"):
             lines, outcome = run_impl(exe, ops, os.path.join(work, "probe.cgns"), backend)
@@ -605,33 +583,51 @@ def run(ck):
             probe_report.append({"key": key, "name": name, "backend": backend, "property_fails": d is not None})
             if d is not None:
                 avoid.add(KEY_TRIGGER[key])
-                if key == "parentdata-clobbered-on-extend":
-                    variant = "current"
+                rvariant = "current"
                 ck.finding(key, {"level": "api", "backend": backend, "probe": name, "script": [line_of(o) for o in ops],
                                  "oracle": "python list-of-elements reference (splice / slice / per-element parent rows)",
                                  "detail": d, "replay_hint": "printf '%s\\n' <script lines> | .build/h/c10_elem_h /tmp/x.cgns " + backend})
-    # the other two defects have no repaired model variant: their triggers stay out of the random histories
-    avoid |= {"i4-inmemory", "per-i4-cached"}
+    margs = ["default", rvariant]        # parent-data variant: the model's own switch; read variant: what the probes show
     ck.extra["known_defect_probes"] = probe_report
-    ck.extra["parent_variant_validated"] = variant
+    ck.extra["poly_read_variant_validated"] = rvariant
     mv = vlib.run_model("c10", "variant\n")
-    ck.extra["model_switch_impl_pvariant"] = mv[0] if mv else "?"
-    if mv and mv[0] != "V " + variant:
-        print("NOTE: ElemSplice.impl_pvariant says '%s' but the implementation behaves like the '%s' variant "
-              "(flip the one-line switch in coq/ElemSplice.v)" % (mv[0][2:], variant), flush=True)
+    ck.extra["model_switches"] = mv[0] if mv else "?"
+    if mv and mv[0].split()[2:] != [rvariant]:
+        print("NOTE: ElemSplice.impl_rvariant says '%s' but cg_poly_elements_read behaves like the '%s' variant "
+              "(flip the one-line switch in coq/ElemSplice.v)" % (mv[0].split()[2], rvariant), flush=True)
     # the model must reproduce the probes exactly (the defective answers included)
     for key, name, ops in PROBES:
         for backend in ("adf", "hdf5"):
             lines, outcome = run_impl(exe, ops, os.path.join(work, "probe.cgns"), backend)
-            d = model_compare(ops, lines, outcome, variant)
+            d = model_compare(ops, lines, outcome, margs)
             ck.cov["traces_validated_against_impl"] += 1
             if d is not None:
                 corr_broken.append({"level": "probe", "name": name, "backend": backend, "first_divergence": d})
 
-    # ---- corpus, then seeded histories
+    # ---- corpus (regression histories of the repaired defects: a failure is a violation)
+    cdir = os.path.join(vlib.ROOT, "corpus", "C10")
+    for fname in sorted(os.listdir(cdir)) if os.path.isdir(cdir) else []:
+        if not fname.endswith(".hist") or ck.violations:
+            continue
+        ops = [parse_line(l) for l in open(os.path.join(cdir, fname)).read().split("\n") if l.strip() and not l.startswith("#")]
+        for backend in ("adf", "hdf5"):
+            lines, outcome = run_impl(exe, ops, os.path.join(work, "corpus.cgns"), backend)
+            ck.case(hashlib.sha1((fname + backend).encode()).hexdigest(), sample={"level": "corpus", "file": fname, "backend": backend})
+            ck.cov["traces_validated_against_impl"] += 1
+            d = oracle_check(ops, lines, outcome)
+            if d is not None:
+                ck.violation({"level": "api", "backend": backend, "corpus": fname, "script": [line_of(o) for o in ops],
+                              "oracle": "python list-of-elements reference", "detail": d,
+                              "replay_hint": "printf '%s\\n' <script lines> | .build/h/c10_elem_h /tmp/x.cgns " + backend})
+                break
+            m = model_compare(ops, lines, outcome, margs)
+            if m is not None:
+                corr_broken.append({"level": "corpus", "file": fname, "backend": backend, "first_divergence": m})
+
+    # ---- seeded histories
     nh = 700 if big else 110
-    found = False
-    for i in range(nh):
+    found = bool(ck.violations)
+    for i in range(0 if found else nh):
         ops, feat = gen_history(ck.rng, avoid, big=big and i % 4 == 0)
         for backend in ("adf", "hdf5"):
             path = os.path.join(work, "h_%s.cgns" % backend)
@@ -651,7 +647,7 @@ def run(ck):
                               "detail": d2, "replay_hint": "printf '%s\\n' <script lines> | .build/h/c10_elem_h /tmp/x.cgns " + backend})
                 found = True
                 break
-            m = model_compare(ops, lines, outcome, variant)
+            m = model_compare(ops, lines, outcome, margs)
             if m is not None and len(corr_broken) < 6:
                 corr_broken.append({"level": "api", "backend": backend, "script": [line_of(o) for o in ops], "first_divergence": m})
         for f in feat:
@@ -687,8 +683,50 @@ def run(ck):
 
 
 def parse_line(l):
-    """inverse of line_of for replay files (scripts are stored as text lines)"""
-    return l
+    """inverse of line_of (corpus files and replays store histories as script lines)"""
+    t = l.split()
+    k, a = t[0], [int(x) for x in t[1:]]
+
+    def vec_at(i):
+        n = a[i]
+        return a[i + 1:i + 1 + n], i + 1 + n
+
+    def chunk(v, sizes):
+        out, p = [], 0
+        for z in sizes:
+            out.append(v[p:p + z]); p += z
+        return out
+
+    def by_offsets(v, o):
+        return [v[o[i] - o[0]:o[i + 1] - o[0]] for i in range(len(o) - 1)]
+
+    def rows(v):
+        n = len(v) // 4
+        return [[v[j * n + i] for j in range(4)] for i in range(n)]
+    if k == "secw":
+        v, _ = vec_at(3)
+        n = NPE[a[0]] if is_fixed(a[0]) else 1
+        return ("secw", a[0], a[1], a[2], chunk(v, [n] * (len(v) // max(n, 1))))
+    if k == "psecw":
+        v, i = vec_at(3); o, _ = vec_at(i)
+        return ("psecw", a[0], a[1], a[2], by_offsets(v, o))
+    if k in ("epw", "egw"):
+        b = 2 if k == "epw" else 3
+        v, _ = vec_at(b)
+        cnt = a[b - 1] - a[b - 2] + 1
+        n = len(v) // cnt if cnt > 0 else 1
+        return tuple([k] + a[:b] + [chunk(v, [n] * max(cnt, 0))])
+    if k in ("ppw", "pgw"):
+        b = 2 if k == "ppw" else 3
+        v, i = vec_at(b); o, _ = vec_at(i)
+        return tuple([k] + a[:b] + [by_offsets(v, o)])
+    if k == "pdw":
+        v, _ = vec_at(0)
+        return ("pdw", rows(v))
+    if k == "pdpw":
+        v, _ = vec_at(2)
+        return ("pdpw", a[0], a[1], rows(v))
+    return tuple([k] + a)
 
 
 def replay(ck, path):
